@@ -1002,7 +1002,12 @@ func (e *Evaluator) evalStatement(stmt Statement) error {
 				}
 			}
 		case ValueObj:
-			for k, v := range *iterable.Value.Obj {
+			for _, k := range sortedKeys(*iterable.Value.Obj) {
+				v, present := (*iterable.Value.Obj)[k]
+				if !present {
+					// removed by the loop body
+					continue
+				}
 				if indexLocal != nil {
 					indexLocal.Value = v.Value
 				}
